@@ -99,6 +99,10 @@ func materialise(root string, c impCase, variant int, rootFile ...string) (extra
 					extraTasks = append(extraTasks, tn)
 				}
 			}
+			// a sub-directory of the imported directory with a configuration nobody imports: a directory
+			// import takes the files OF the directory, not what lies below it
+			_ = os.MkdirAll(filepath.Join(dd, "nested"), 0o755)
+			_ = ioutil.WriteFile(filepath.Join(dd, "nested", "n.yaml"), []byte(fmt.Sprintf("tasks:\n  t%dnested:\n    command: [\"true\"]\n", i)), 0o644)
 			// a file of the directory that defines nothing but a variable: it is part of the closure like any
 			_ = ioutil.WriteFile(filepath.Join(dd, "v.yaml"), []byte(fmt.Sprintf("variables:\n  dv%d: dirvalue%d\n", i, i)), 0o644)
 			_ = ioutil.WriteFile(filepath.Join(dd, "ignored.txt"), []byte("not yaml"), 0o644)
@@ -325,6 +329,51 @@ func CheckC17(env *core.Env, rep *core.Report) *core.Result {
 		}
 	})
 
+	// import chains that mix the three formats (a YAML file importing a JSON or TOML file and the other
+	// way round, a file without sections of its own, imported files that import): every file of the
+	// closure contributes its tasks, whatever the formats along the way
+	{
+		dd := env.Sub("mixed")
+		files := map[string]string{
+			"i1.json": `{"tasks":{"j1":{"command":["true"],"env":{"A":"1"}}}}`,
+			"i1.toml": "[tasks.o1]\ncommand = [\"true\"]\n[tasks.o1.env]\nA = \"1\"\n",
+			"i2.yaml": "tasks:\n  y2:\n    command: [\"true\"]\n    env:\n      B: \"2\"\n",
+			"i3.yaml": "tasks:\n  y3:\n    command: [\"true\"]\n    env:\n      C: \"3\"\n",
+			"m1.yaml": "import: [\"i1.json\"]\ntasks:\n  m1:\n    command: [\"true\"]\n    env:\n      M: \"1\"\n",
+			"m2.yaml": "import: [\"i1.toml\"]\ntasks:\n  m2:\n    command: [\"true\"]\n    env:\n      M: \"2\"\n",
+			"j.json":  `{"import":["i2.yaml","i1.toml"],"tasks":{"jj":{"command":["true"],"env":{"J":"1"}}}}`,
+			"o.toml":  "import = [\"i3.yaml\", \"i1.json\"]\n[tasks.oo]\ncommand = [\"true\"]\n[tasks.oo.env]\nO = \"1\"\n",
+		}
+		for name, body := range files {
+			_ = ioutil.WriteFile(filepath.Join(dd, name), []byte(body), 0o644)
+		}
+		for k, c := range []struct {
+			doc  string
+			want []string
+		}{
+			{"import: [\"i1.json\", \"i2.yaml\"]\ntasks:\n  r0:\n    command: [\"true\"]\n", []string{"r0", "j1", "y2"}},
+			{"import: [\"i2.yaml\", \"i1.toml\", \"i3.yaml\"]\ntasks:\n  r0:\n    command: [\"true\"]\n", []string{"r0", "y2", "o1", "y3"}},
+			{"import: [\"m1.yaml\", \"i2.yaml\"]\n", []string{"m1", "j1", "y2"}},
+			{"import: [\"m2.yaml\", \"i3.yaml\", \"i2.yaml\"]\npipelines:\n  entry:\n    - task: y2\n", []string{"m2", "o1", "y3", "y2"}},
+			{"import: [\"i3.yaml\", \"m1.yaml\", \"i2.yaml\"]\ncontexts:\n  c:\n    env:\n      A: \"1\"\n", []string{"y3", "m1", "j1", "y2"}},
+			{"import: [\"j.json\", \"o.toml\"]\ntasks:\n  r0:\n    command: [\"true\"]\n    env:\n      R: \"0\"\n", []string{"r0", "jj", "y2", "o1", "oo", "y3", "j1"}},
+		} {
+			f := filepath.Join(dd, fmt.Sprintf("root%d.yaml", k))
+			_ = ioutil.WriteFile(f, []byte(c.doc), 0o644)
+			res := e.run(dd, "", 10*time.Second, "-c", f, "list", "tasks")
+			atomic.AddInt64(&n, 1)
+			var missing []string
+			for _, w := range c.want {
+				if !hasWord(res.Stdout, w) {
+					missing = append(missing, w)
+				}
+			}
+			if res.Exit != 0 || len(missing) > 0 {
+				rep.Add(core.Finding{Prop: "C17", Key: "C17:imports:mixed-format-chain-not-loaded-completely", What: fmt.Sprintf("an import chain that mixes YAML, JSON and TOML files (%q): exit %d, tasks missing %v: %s", c.doc, res.Exit, missing, lastLine(res.Stderr)),
+					Detail: map[string]interface{}{"stdout": res.Stdout, "stderr": tailS(res.Stderr, 400)}})
+			}
+		}
+	}
 	// a long chain and a deep walk: 10 files each importing the next (in ever deeper directories), and a
 	// start file that imports the first and the last of them: everything reachable is loaded, however
 	// deep the walk goes
